@@ -14,7 +14,8 @@ Inductive ev :=
 | Slot (node date size nstarts before after : Z)
 | Start (node date c_on skind n_int in_slot : Z)
 | IntRec (node exit_date shift_date : Z)
-| Snap (node now onduty : Z).
+| Snap (node now onduty : Z)
+| EndSvc (node date : Z).        (* the node executed an end of service as ITS next event at that date *)
 
 Definition decode_ncfg (s : sx) : option ncfg :=
   match s with
@@ -29,6 +30,7 @@ Definition decode_ev (s : sx) : option ev :=
   | L [A 3; A n; A d; A c; A k; A ni; A sl] => Some (Start n d c k ni sl)
   | L [A 4; A n; A x; A sd] => Some (IntRec n x sd)
   | L [A 5; A n; A t; A o] => Some (Snap n t o)
+  | L [A 6; A n; A d] => Some (EndSvc n d)
   | _ => None
   end.
 
@@ -86,6 +88,15 @@ Definition step (cs : list ncfg) (m : list (Z * nat)) (e : ev) : list (Z * nat) 
       else if negb (t <=? D (bnd cf) (offs cf) k) then inr 74        (* the next shift change is not overdue *)
       else inl m
     end
+  | EndSvc n d =>
+    match cfg_of cs n with
+    | None => inr 60
+    | Some cf =>
+      let k := cnt m n in
+      (* at a tie the node's shift change / slot goes first: an end of service is the node's next event only strictly before it *)
+      if negb (d <? (if kind cf =? 0 then D (bnd cf) (offs cf) k else slot_date (bnd cf) (offs cf) k)) then inr 75
+      else inl m
+    end
   end.
 
 Fixpoint replay (cs : list ncfg) (m : list (Z * nat)) (i : Z) (es : list ev) : option (Z * Z) :=
@@ -125,7 +136,8 @@ Proof. unfold bump. cbn. destruct (n =? n') eqn:E; [apply Z.eqb_eq in E; subst|]
 
 Lemma step_cnt cs m e m' n : step cs m e = inl m' -> cnt m' n = (cnt m n + (if is_tick n e then 1 else 0))%nat.
 Proof.
-  destruct e as [nd d c o|nd d sz ns bf af|nd d c sk ni sl|nd x sd|nd t o]; cbn [step is_tick]; intros H.
+  destruct e as [nd d c o|nd d sz ns bf af|nd d c sk ni sl|nd x sd|nd t o|nd d]; cbn [step is_tick]; intros H.
+  6: { destruct (cfg_of cs nd); [|discriminate]. destruct (negb _); [discriminate|]. injection H as <-. lia. }
   - destruct (cfg_of cs nd); [|discriminate].
     repeat match type of H with (if ?b then _ else _) = _ => destruct b; [discriminate|] end.
     injection H as <-. rewrite cnt_bump. destruct (nd =? n) eqn:E; [apply Z.eqb_eq in E; subst; lia|lia].
@@ -157,14 +169,19 @@ Definition ev_ok (cs : list ncfg) (j : nat) (e : ev) : Prop :=
   | IntRec n x sd => x = sd
   | Snap n t o => exists cf, cfg_of cs n = Some cf /\
       (kind cf = 0 -> o = match j with O => 0 | S i => C (bnd cf) (vals cf) i end /\ t <= D (bnd cf) (offs cf) j)
+  | EndSvc n d => exists cf, cfg_of cs n = Some cf /\
+      (kind cf = 0 -> d < D (bnd cf) (offs cf) j) /\ (kind cf <> 0 -> d < slot_date (bnd cf) (offs cf) j)
   end.
 
 Definition node_of (e : ev) : Z :=
-  match e with Shift n _ _ _ | Slot n _ _ _ _ _ | Start n _ _ _ _ _ | IntRec n _ _ | Snap n _ _ => n end.
+  match e with Shift n _ _ _ | Slot n _ _ _ _ _ | Start n _ _ _ _ _ | IntRec n _ _ | Snap n _ _ | EndSvc n _ => n end.
 
 Lemma step_ok cs m e m' : step cs m e = inl m' -> ev_ok cs (cnt m (node_of e)) e.
 Proof.
-  destruct e as [nd d c o|nd d sz ns bf af|nd d c sk ni sl|nd x sd|nd t o]; cbn [step ev_ok node_of]; intros H.
+  destruct e as [nd d c o|nd d sz ns bf af|nd d c sk ni sl|nd x sd|nd t o|nd d]; cbn [step ev_ok node_of]; intros H.
+  6: { destruct (cfg_of cs nd) as [cf|]; [|discriminate]. exists cf. split; [reflexivity|].
+       destruct (kind cf =? 0) eqn:E1; [apply Z.eqb_eq in E1|apply Z.eqb_neq in E1];
+       (destruct (d <? _) eqn:E2; cbn in H; [|discriminate]); apply Z.ltb_lt in E2; split; intros; [exact E2|congruence|congruence|exact E2]. }
   - destruct (cfg_of cs nd) as [cf|]; [|discriminate]. exists cf. split; [reflexivity|].
     destruct (kind cf =? 0) eqn:E1; cbn in H; [|discriminate].
     destruct (d =? _) eqn:E2; cbn in H; [|discriminate].
@@ -230,6 +247,9 @@ Qed.
 Example acc_example :
   is_accept (acc [mkN 1 0 [10;30;100] [2;0;1] 7 false false]
     [Snap 1 0 0; Shift 1 7 2 2; Start 1 7 2 0 0 0; Snap 1 7 2; Snap 1 12 2; Shift 1 17 0 0; Snap 1 17 0; Shift 1 37 1 1]) = true.
+Proof. vm_compute. reflexivity. Qed.
+Example rej_end_at_shift :    (* an end of service executed as the node's event AT the date of its due shift change *)
+  acc [mkN 1 0 [10;30;100] [2;0;1] 7 false false] [Shift 1 7 2 2; EndSvc 1 12; EndSvc 1 17] = Reject 2 75 [].
 Proof. vm_compute. reflexivity. Qed.
 Example rej_start_zero :
   acc [mkN 1 0 [10;30;100] [2;0;1] 7 false false] [Shift 1 7 2 2; Shift 1 17 0 0; Start 1 20 0 0 0 0] = Reject 2 69 [].
